@@ -7,6 +7,7 @@ mod infl;
 mod mem;
 mod memc;
 mod rng;
+mod tomb;
 
 use std::collections::BTreeMap;
 
@@ -33,6 +34,7 @@ fn main() {
         "memc" => memc::main(&args),
         "infl" => infl::main(&args),
         "codec" => codec::main(&args),
+        "tomb" => tomb::main(&args),
         _ => {
             eprintln!("unknown domain {domain:?}");
             2
